@@ -982,6 +982,17 @@ func (sc *scenario) run(maxOps int) {
 				// the node's own tick runs to completion while the round waits for its first answer
 				last := n.Chain.LastBlockTimestamp()
 				v, _ = w.SyncTick(n, now, nb, pick(r, []int64{last + S.Interval, last + S.Interval, last + S.Interval, last, last + 2*S.Interval}))
+			} else if r.Intn(6) == 0 && sc.profile != "offgrid" {
+				// a submission admitted while the round waits for its first answer
+				if tx, k := sc.makeTx(n, pick(r, []string{"valid", "valid", "yield-new", "double-spend", "spend-last-block"})); tx != nil {
+					v, _ = w.SyncSubmit(n, now, nb, tx)
+					w.Hist["tx-in-round:"+k+"→"+v.Info["submit"]]++
+					if v.Info["submit"] == "admitted" {
+						sc.mark("admitted")
+					}
+				} else {
+					v, _ = w.Sync(n, now, nb)
+				}
 			} else {
 				v, _ = w.Sync(n, now, nb)
 			}
